@@ -181,9 +181,11 @@ def SOp.onMap : SOp → AMap → AMap
   | .put _ n e, m => m.put n e
   | .setEnd _ n x, m => match m.find n with | some e => m.put n { e with nUserEnd := x } | none => m
   | .setNewDef _ n b, m => match m.find n with | some e => m.put n { e with newDef := b } | none => m
-  | .modify _ n x tok, m =>
-    -- read_raw(parser, false) starts with Set_new_def(false)
-    match m.find n with | some e => m.put n { e with content := tok, nUserEnd := x, newDef := false } | none => m
+  | .modify k n x tok, m =>
+    -- read_raw(parser, false) starts with Set_new_def(false) — except cxxSolution::read_raw, which leaves new_def alone
+    match m.find n with
+    | some e => m.put n { e with content := tok, nUserEnd := x, newDef := if k = .solution then e.newDef else false }
+    | none => m
   | .copy _ i j, m => rxnCopy m i j
   | .copies _ n x, m => rxnCopies m n x
   | .copyEach _ n x, m => Store.copyEach m n x
